@@ -76,6 +76,11 @@ def catalogue(nix, np):
     add("Section.__setitem__", "bool_after_ints_new", lambda T: T["sec"].__setitem__("dmix2", [1, 2, True]), lambda T: T["sec"].__setitem__("dmix2", [1]))
     add("Property.extend_values", "bool_to_ints", lambda T: T["p_int"].extend_values([True]))
     add("Property.extend_values", "int_to_floats", lambda T: T["p_float"].extend_values([1]))
+    add("Section.create_property", "float32_array_values", lambda T: T["sec"].create_property("f32vals", np.array([1.5, 2.5], dtype=np.float32)), lambda T: T["sec"].create_property("f32vals", [1.5]))
+    add("Section.create_property", "int_beyond_64_bit", lambda T: T["sec"].create_property("bigint", [1, 2 ** 70]), lambda T: T["sec"].create_property("bigint", [1]))
+    add("Property.values", "int_beyond_64_bit", lambda T: setattr(T["p_int"], "values", [2 ** 70]))
+    add("Property.values", "int_beyond_64_bit_later", lambda T: setattr(T["p_int"], "values", [1, 2, 3, 4, 2 ** 70]))
+    add("Property.extend_values", "int_beyond_64_bit", lambda T: T["p_int"].extend_values([2 ** 70]))
     add("Section.__setitem__", "mixed_types_new", lambda T: T["sec"].__setitem__("dmix", [1, "a"]), lambda T: T["sec"].__setitem__("dmix", [1]))
     add("Section.__setitem__", "wrong_type_existing", lambda T: T["sec"].__setitem__("ints", ["a"]))
     # ---- data arrays ---------------------------------------------------------------------------------------
@@ -147,6 +152,12 @@ def catalogue(nix, np):
     add("RangeDimension(linked).link_data_array", "not_an_array", lambda T: T["dl"].dimensions[0].link_data_array(T["grp"], [-1]))
     add("SetDimension(linked).link_data_frame", "column_out_of_range", lambda T: T["ddf"].dimensions[0].link_data_frame(T["df"], 11))
     add("SetDimension(linked).link_data_array", "index_without_minus_one", lambda T: T["ddf"].dimensions[0].link_data_array(T["d1"], [0]))
+    add("RangeDimension.link_data_frame", "column_not_an_int", lambda T: rdim(T).link_data_frame(T["df"], 1.0))
+    add("RangeDimension.link_data_frame", "column_is_text", lambda T: rdim(T).link_data_frame(T["df"], "v"))
+    add("SetDimension.link_data_frame", "column_not_an_int", lambda T: T["ds"].dimensions[1].link_data_frame(T["df"], 1.0))
+    add("RangeDimension.link_data_array", "index_of_floats", lambda T: rdim(T).link_data_array(T["ds"], [0.5, -1]))
+    add("RangeDimension.link_data_array", "index_not_a_sequence", lambda T: rdim(T).link_data_array(T["d1"], -1))
+    add("RangeDimension(linked).link_data_frame", "column_not_an_int", lambda T: T["dl"].dimensions[0].link_data_frame(T["df"], 2.0))
     add("RangeDimension.remove_link", "no_link", lambda T: rdim(T).remove_link())
     add("SetDimension.labels", "not_strings", lambda T: setattr(T["ds"].dimensions[0], "labels", [1, 2]))
     add("SetDimension.labels", "not_a_list", lambda T: setattr(T["ds"].dimensions[0], "labels", "ab"))
@@ -172,6 +183,9 @@ def catalogue(nix, np):
     add("Tag.references.__delitem__", "index_out_of_range", lambda T: T["tag"].references.__delitem__(99))
     add("Tag.references.__delitem__", "not_a_member", lambda T: T["tag"].references.__delitem__(T["dempty"]))
     add("MultiTag.references.append", "foreign_block", lambda T: T["mtag"].references.append(T["other"].data_arrays["da_set"]))
+    add("MultiTag.positions", "not_an_entity", lambda T: setattr(T["mtag"], "positions", 5))
+    add("MultiTag.extents", "not_an_entity", lambda T: setattr(T["mtag"], "extents", 5))
+    add("MultiTag.extents", "not_an_entity_text", lambda T: setattr(T["mtag"], "extents", "extents"))
     add("MultiTag.positions", "none", lambda T: setattr(T["mtag"], "positions", None))
     add("Block.create_multi_tag", "positions_none", lambda T: T["b"].create_multi_tag("mtnone", "t", None))
     add("Block.create_multi_tag(raw)", "positions_array_name_taken", lambda T: T["b"].create_multi_tag("taken", "t", np.array([1.0])),
